@@ -539,3 +539,87 @@ class ConvertExponentFormsSpec(FunctionSpec):
     def extra_obligations(self, I, ctx, outcome):
         R = ctx["R"]
         return [("frame[registry unchanged]", ("C15", "C05", "C13"), not R.writes)]
+
+
+@register
+class ConvertMatchedValueSpec(FunctionSpec):
+    """UnitDatabase._ConvertMatchedValue(quantity_type, from_unit, to_unit, exp, value): the re-expression
+    of an operand's amount(s) during unit matching, for every value kind the operations hand over (float,
+    list, tuple, ndarray): exponent 1 or equal units is Convert's contract; otherwise, for a scale-only
+    pair, every element is scaled by ratio**exp, in a new container of the same kind and length (the
+    operand's own container is never written)."""
+
+    fq = UDB + ":UnitDatabase._ConvertMatchedValue"
+    props = ("C03", "C04", "C10", "C13")
+    callees = (UDB + ":UnitDatabase.Convert", UDB + ":UnitDatabase._ConvertWithExp")
+    probe = "array_powers"
+
+    def variants(self, tier):
+        return ["float", "list", "tuple", "ndarray"]
+
+    def setup(self, I, variant):
+        symseq.install(I.P)
+        db, R = make_db(I)
+        install_additional_conversions(I)
+        v = REGISTRY[UDB + ":UnitDatabase.Convert"].make_value(I, variant)
+        if isinstance(v, symseq.SymSeq):
+            v.region = "param"
+        qt, fu, tu = nm("qt"), nm("from_unit"), nm("to_unit")
+        e = SNum(z3.Int("exp"), "int")
+        ctx = {"f": bound(I, db, "_ConvertMatchedValue"), "args": [qt, fu, tu, e, v], "R": R, "st": R.snapshot(), "quantity_type": qt, "from_unit": fu, "to_unit": tu, "exp": e, "value": v}
+        if isinstance(v, symseq.SymSeq):
+            ctx["elems0"], ctx["n0"] = v.elems, v.n
+        return ctx
+
+    def cases(self, I, ctx):
+        R, st = ctx["R"], ctx["st"]
+        qt, fu, tu, e, v = ctx["quantity_type"], ctx["from_unit"], ctx["to_unit"], ctx["exp"], ctx["value"]
+        S = z3.Select
+        plain = z3.Or(e.t == 1, fu.name == tu.name)
+        out = []
+        sub = {"R": R, "st": st, "category_or_quantity_type": qt, "from_unit": fu, "to_unit": tu, "value": v}
+        for c in REGISTRY[UDB + ":UnitDatabase.Convert"].cases(I, sub):
+            c.guard = z3.And(plain, c.guard)
+            c.name = "plain/" + c.name
+            out.append(c)
+        pw = z3.Not(plain)
+        out.append(Case("exponent-0", z3.And(pw, e.t == 0), "any"))
+        ok = z3.And(pw, e.t != 0)
+        c = qt.name
+        isq = S(st["C_dom"], c)
+        q = z3.If(isq, S(st["C_qt"], c), c)
+        r1, k1, nq1, iv1 = resolve_unit(R, st, q, fu.name)
+        r2, k2, nq2, iv2 = resolve_unit(R, st, q, tu.name)
+        knownqt = z3.Or(isq, S(st["Q_dom"], c))
+        out.append(rai("power/no-quantity-type", z3.And(ok, z3.Not(knownqt)), "InvalidQuantityTypeError", props=("C05",)))
+        pre = z3.And(ok, knownqt)
+        out.append(rai("power/unit-of-unregistered-type", z3.And(pre, z3.Or(nq1, nq2), z3.Not(z3.Or(iv1, iv2))), "InvalidQuantityTypeError", props=("C05",)))
+        out.append(rai("power/invalid-unit", z3.And(pre, z3.Or(iv1, iv2), z3.Not(z3.Or(nq1, nq2))), "InvalidUnitError", props=("C05",)))
+        out.append(Case("power/two-different-errors", z3.And(pre, z3.Or(iv1, iv2), z3.Or(nq1, nq2)), "any"))
+        good = z3.And(pre, r1, r2)
+        lin = scale_only(k1, k2)
+        factor = upow(ratio(k1, k2), z3.ToReal(e.t))
+
+        def chk(I, res):
+            if isinstance(v, SNum):
+                return res.real() == v.real() * factor if isinstance(res, SNum) else F
+            if not (isinstance(res, symseq.SymSeq) and res.kind == v.kind):
+                return F
+            j = z3.Int("j!spec")
+            return z3.And(
+                res.token != v.token,
+                res.n == ctx["n0"],
+                z3.ForAll([j], z3.Implies(z3.And(j >= 0, j < ctx["n0"]), z3.Select(res.elems, j) == z3.Select(ctx["elems0"], j) * factor)),
+            )
+
+        out.append(ret("power/scaled-by-ratio**exp", z3.And(good, lin), props=("C03", "C04", "C10"), check=chk))
+        out.append(Case("power/not-scale-only", z3.And(good, z3.Not(lin)), "any"))
+        return out
+
+    def extra_obligations(self, I, ctx, outcome):
+        R = ctx["R"]
+        obs = [("frame[registry unchanged]", ("C15", "C05", "C13"), not R.writes)]
+        v = ctx["value"]
+        if isinstance(v, symseq.SymSeq):
+            obs.append(("frame[the operand's container is unchanged]", ("C13",), z3.And(v.n == ctx["n0"], v.elems == ctx["elems0"])))
+        return obs
